@@ -19,6 +19,7 @@ CONSTANTS
   MaxBuilds = 2
   MaxExt = 1
   MaxCleans = 0
+  Verbose = FALSE
   AllowKeepMeta = FALSE
 INVARIANT NoViolation
 INVARIANT InvView
